@@ -446,6 +446,79 @@ fn box_drain() {
     kani::cover!(true, "END: harness ran to completion");
 }
 
+/// drain(start..end), `take` items from the front (0..2) and `take_back` from the back (0..2), then `keep_rest()`:
+/// the slice is the original minus exactly the yielded elements, in order (std `Drain::keep_rest`); the yielded
+/// elements belong to the caller, everything else is still owned by the slice (dropped exactly once with it)
+#[kani::proof]
+#[kani::unwind(10)]
+#[kani::stub(core::ptr::copy, crate::stubs::copy_stub)]
+#[kani::stub(core::ptr::copy_nonoverlapping, crate::stubs::copy_stub)]
+fn box_drain_keep_rest() {
+    state!(buf, vals, len, b, m);
+    let start: usize = kani::any();
+    let end: usize = kani::any();
+    kani::assume(start <= end && end <= len);
+    let take: usize = kani::any();
+    let take_back: usize = kani::any();
+    kani::assume(take <= 2 && take_back <= 2);
+    let n = end - start;
+    let mut front = 0;
+    let mut back = 0;
+    {
+        let mut d = b.drain(start..end);
+        if take >= 1 {
+            if let Some(e) = d.next() {
+                assert!(e.id as usize == start, "C08: drain yielded the wrong first element");
+                front += 1;
+            }
+        }
+        if take >= 2 {
+            if let Some(e) = d.next() {
+                assert!(e.id as usize == start + 1, "C08: drain yielded the wrong second element");
+                front += 1;
+            }
+        }
+        if take_back >= 1 {
+            if let Some(e) = d.next_back() {
+                assert!(e.id as usize == end - 1, "C08: drain yielded the wrong last element");
+                back += 1;
+            }
+        }
+        if take_back >= 2 {
+            if let Some(e) = d.next_back() {
+                assert!(e.id as usize == end - 2, "C08: drain yielded the wrong element from the back");
+                back += 1;
+            }
+        }
+        assert!(front + back <= n, "C08: drain yielded more elements than the range holds");
+        kani::cover!(front == 0 && back == 1 && end < len, "only next_back, non-empty tail");
+        kani::cover!(front == 1 && back == 1 && n == 3, "both ends, one unyielded");
+        kani::cover!(front == 1 && back == 0 && n == 2, "only next");
+        d.keep_rest();
+    }
+    // yielded (and already dropped): [start, start+front) and [end-back, end)
+    let mut mr = Model::empty();
+    let mut k = 0;
+    while k < CAP {
+        if k < len && !((k >= start && k < start + front) || (k + back >= end && k < end)) {
+            mr.push(k as u8);
+        }
+        k += 1;
+    }
+    assert_is(&b, &mr, &vals);
+    k = 0;
+    while k < CAP {
+        if k < len {
+            let yielded = (k >= start && k < start + front) || (k + back >= end && k < end);
+            assert!(drops(k) == if yielded { 1 } else { 0 }, "C06: keep_rest dropped or lost the wrong elements");
+        }
+        k += 1;
+    }
+    drop(b);
+    assert_dropped_once(len);
+    kani::cover!(true, "END: harness ran to completion");
+}
+
 /// extract_if under every predicate, consumed `take` items then dropped
 #[kani::proof]
 #[kani::unwind(10)]
@@ -786,6 +859,87 @@ fn box_zst_ops() {
 }
 
 
+
+/// zero-sized elements through the iterator-shaped owners: drain(s..e) / into_iter not advanced, then
+/// dropped (or keep_rest): every value is dropped exactly once in total - the yielded ones by the caller (here: counted
+/// when the harness drops them), the rest of the range by the iterator, the remaining elements with the slice.
+/// (ZSTs have no identity, so "exactly once" is the total count: len drops when everything is gone.)
+#[kani::proof]
+#[kani::unwind(10)]
+#[kani::stub(core::ptr::copy, crate::stubs::copy_stub)]
+#[kani::stub(core::ptr::copy_nonoverlapping, crate::stubs::copy_stub)]
+fn box_zst_iters() {
+    let len = any_len();
+    let mut b = unsafe { zbox(len) };
+    let op: u8 = kani::any();
+    kani::assume(op < 3);
+    // The iterators are NOT advanced here: `next()` of a ZST iterator is `mem::zeroed::<Z>()`, a zero-byte memset on a
+    // zero-sized local, for which CBMC 6.11 reports "memset destination region writeable" (tool artifact; the sized
+    // harnesses box_drain / box_into_iter cover consumption). What is decided: an un-consumed or kept iterator.
+    let take = false;
+    let take_back = false;
+    let s: usize = kani::any();
+    let e: usize = kani::any();
+    kani::assume(s <= e && e <= len);
+    match op {
+        0 | 1 => {
+            let mut yielded = 0;
+            {
+                let mut d = b.drain(s..e);
+                assert!(d.len() == e - s, "C08: zst drain reports the wrong length");
+                if take {
+                    if let Some(z) = d.next() {
+                        mem::forget(z);
+                        yielded += 1;
+                    }
+                }
+                if take_back {
+                    if let Some(z) = d.next_back() {
+                        mem::forget(z);
+                        yielded += 1;
+                    }
+                }
+                assert!(yielded <= e - s, "C08: zst drain yielded more values than the range holds");
+                kani::cover!(e - s == 2 && e < len, "zst drain of an interior range");
+                if op == 1 {
+                    d.keep_rest();
+                }
+            }
+            if op == 0 {
+                // the un-yielded part of the range was dropped with the iterator - each value once
+                assert!(zdrops() == (e - s) - yielded, "C06: dropping a zst Drain dropped the un-yielded values a wrong number of times");
+                assert!(b.len() == len - (e - s), "C08: zst length after drain");
+            } else {
+                assert!(zdrops() == 0, "C06: zst keep_rest dropped values");
+                assert!(b.len() == len - yielded, "C08: zst length after drain + keep_rest");
+            }
+            let before = zdrops();
+            let left = b.len();
+            drop(b);
+            assert!(zdrops() == before + left, "C06: zst values dropped a wrong number of times");
+        }
+        _ => {
+            let mut yielded = 0;
+            let mut it = b.into_iter();
+            assert!(it.len() == len, "C08: zst into_iter reports the wrong length");
+            if take {
+                if let Some(z) = it.next() {
+                    mem::forget(z);
+                    yielded += 1;
+                }
+            }
+            if take_back {
+                if let Some(z) = it.next_back() {
+                    mem::forget(z);
+                    yielded += 1;
+                }
+            }
+            drop(it);
+            assert!(zdrops() == len - yielded, "C06: dropping a zst IntoIter dropped the un-yielded values a wrong number of times");
+        }
+    }
+    kani::cover!(true, "END: harness ran to completion");
+}
 
 pub unsafe fn no_rotate<T>(_left: usize, _mid: *mut T, _right: usize) {
     kani::assert(false, "C16: split_off rotated elements for a prefix / suffix / empty range");
